@@ -18,7 +18,7 @@ from .common import Part, watchdog, Timeout
 from supp.assistant import assist, location
 from supp.project import Project
 
-KINDS_X = ('none', 'classvar', 'method', 'property', 'init-assign', 'method-assign')
+KINDS_X = ('none', 'classvar', 'method', 'property', 'init-assign', 'method-assign', 'lazy-assign')
 KINDS_Y = ('none', 'classvar', 'method-assign')
 BUILTIN_BASES = ('object', 'dict', 'Exception')
 
@@ -37,6 +37,12 @@ class Hier(object):
         return len(self.lines)
 
     def render(self):
+        # a source-defined descriptor (the lazy / cached attribute idiom): accessing the attribute runs the function
+        self.emit('class Lazy(object):')
+        self.emit('    def __init__(self, f):')
+        self.emit('        self.f = f')
+        self.emit('    def __get__(self, obj, cls):')
+        self.emit('        return self.f(obj)')
         for i, (bases, kx, ky) in enumerate(self.classes):
             bs = ', '.join('C%d' % b if isinstance(b, int) else b for b in bases)
             self.emit('class C%d(%s):' % (i, bs) if bs else 'class C%d:' % i)
@@ -57,6 +63,12 @@ class Hier(object):
                     self.sites[(i, attr)] = ('class', (ln, 8))
                 elif k == 'init-assign':
                     init.append(attr)
+                elif k == 'lazy-assign':
+                    self.emit('    @Lazy')
+                    self.emit('    def lazy_%s%d(self):' % (attr, i))
+                    ln = self.emit('        self.%s = %d' % (attr, i))
+                    self.emit('        return 0')
+                    self.sites[(i, attr)] = ('inst', (ln, 8))
                 elif k == 'method-assign':
                     self.emit('    def set_%s%d(self):' % (attr, i))
                     ln = self.emit('        self.%s = %d' % (attr, i))
@@ -125,6 +137,12 @@ def ground_truth(h):
     for c in K.__mro__:
         if c in src:
             for name, f in vars(c).items():
+                if type(f).__name__ == 'Lazy':
+                    try:
+                        getattr(inst, name)
+                    except AttributeError:
+                        return None
+                    continue
                 if callable(f) and not isinstance(f, property) and name not in ('x', 'y') and not name.startswith('__') or name == '__init__' and c in src:
                     try:
                         f(inst)
@@ -149,7 +167,7 @@ def flat_first(locs, fn):
         return []
     first = locs[0]
     items = first if isinstance(first, list) else [first]
-    return [tuple(x['loc']) for x in items if x.get('file') == fn]
+    return [tuple(x['loc']) for x in items if x.get('file') == fn or str(x.get('file')).endswith('leaf.py')]
 
 
 def check_hier(h, root, part, imports=False):
@@ -179,6 +197,19 @@ def check_hier(h, root, part, imports=False):
                                 ('star-import', 'from hmod import *\n', '%s()' % h.top), ('from-import-func', 'from hmod import make\n', 'make()')):
             t = pre + '%s.x; %s.y\n' % (recv, recv)
             texts.append((os.path.join(root, 'x.py'), t, [('instance-via-' + form, 2, recv)]))
+        # the same module three packages deep: import a.b.c / a.b.c.K().x, and a subclass defined in the buffer
+        deep = os.path.join(root, 'deep', 'mid')
+        os.makedirs(deep, exist_ok=True)
+        for d in (os.path.join(root, 'deep'), deep):
+            open(os.path.join(d, '__init__.py'), 'w').close()
+        with open(os.path.join(deep, 'leaf.py'), 'w') as f:
+            f.write(h.text)
+        fn_leaf = os.path.join(deep, 'leaf.py')
+        r = 'deep.mid.leaf.%s()' % h.top
+        texts.append((os.path.join(root, 'x.py'), 'import deep.mid.leaf\n%s.x; %s.y\n' % (r, r), [('instance-via-import-dotted3', 2, r)]))
+        texts.append((os.path.join(root, 'x.py'), 'import deep.mid.leaf\nimport deep.mid\nclass Child(deep.mid.leaf.%s):\n    pass\nChild().x; Child().y\n' % h.top,
+                      [('instance-via-subclass-of-dotted3', 5, 'Child()')]))
+        texts.append((os.path.join(root, 'x.py'), 'from deep.mid import leaf as lf\nlf.%s().x; lf.%s().y\n' % (h.top, h.top), [('instance-via-from-package-import-module', 2, 'lf.%s()' % h.top)]))
     for tfn, text, recvs in texts:
         line_of = text.split('\n')
         for rname, ln, rexpr in recvs:
